@@ -492,13 +492,13 @@ def pN (op : OpDef) (g k : Nat) : Nat := (pI op g k).toNat
 def opClass (g : Graph) (op : OpDef) : Option Nat :=
   match op.kind with
   | "CONV_2D" | "DEPTHWISE_CONV_2D" | "FULLY_CONNECTED" | "ADD" | "SUB" | "MUL" | "QUANTIZE" | "LEAKY_RELU" | "TRANSPOSE_CONV"
-  | "HARD_SWISH" | "SQUARED_DIFFERENCE" => some 0
+  | "HARD_SWISH" | "SQUARED_DIFFERENCE" | "ABS" => some 0
   | "MAX_POOL_2D" | "RELU" | "RELU6" | "RELU_N1_TO_1" | "MINIMUM" | "MAXIMUM" | "RESHAPE" | "SQUEEZE" | "EXPAND_DIMS" => some 2
   | "CONCATENATION" =>
     -- inputs quantised like the output are copied; the others are requantised (approximated class)
     let o := outId op 0
     some (if op.ins.all (fun i => i < 0 ∨ (g.scales i.toNat == g.scales o ∧ g.zp i.toNat == g.zp o)) then 2 else 1)
-  | "SPLIT" | "STRIDED_SLICE" | "PAD" | "TRANSPOSE" => some 2
+  | "SPLIT" | "STRIDED_SLICE" | "PAD" | "TRANSPOSE" | "SLICE" | "SPLIT_V" | "PACK" | "UNPACK" => some 2
   | "ARG_MAX" => some 0
   | "LOGISTIC" | "TANH" | "RESIZE_BILINEAR" | "RESIZE_NEAREST_NEIGHBOR" | "MEAN" | "SOFTMAX" | "EXP" => some 1
   | "AVERAGE_POOL_2D" =>
@@ -655,6 +655,45 @@ def evalOp (g : Graph) (env : Env) (op : OpDef) : Except String (List Tensor) :=
       if prod os ≠ out.size then throw "mean: output shape"
       return [{ shape := os, data := out }]
     | _, _ => throw "unsupported:MEAN:quantisation"
+  | "SLICE" =>
+    -- params: group 0 = begin, group 1 = size (resolved)
+    let a ← getIn env op 0
+    return [← slice a ((grp op 0).map Int.toNat) ((grp op 1).map Int.toNat)]
+  | "SPLIT_V" =>
+    -- params: group 0 = [axis], group 1 = sizes (resolved)
+    let a ← getIn env op 0
+    let axis := pN op 0 0
+    let sizes := (grp op 1).map Int.toNat
+    if axis ≥ a.shape.length ∨ sizes.foldl (· + ·) 0 ≠ a.shape.getD axis 0 then throw "split_v: sizes"
+    let starts := sizes.foldl (fun (acc : List Nat × Nat) sz => (acc.1 ++ [acc.2], acc.2 + sz)) ([], 0)
+    (starts.1.zip sizes).mapM fun (st, sz) =>
+      slice a ((List.replicate a.shape.length 0).set axis st) (a.shape.set axis sz)
+  | "PACK" =>
+    -- params: axis (resolved): the inputs, each with a new dimension of extent 1 at `axis`, concatenated there
+    let ts ← (List.range op.ins.length).mapM fun k => getIn env op k
+    let axis := pN op 0 0
+    let t0 :: _ := ts | throw "pack: no inputs"
+    if axis > t0.shape.length then throw "pack: axis"
+    let ts' := ts.map fun t => { t with shape := (t.shape.take axis) ++ [1] ++ (t.shape.drop axis) }
+    return [← concat ts' axis]
+  | "UNPACK" =>
+    -- params: axis (resolved), count
+    let a ← getIn env op 0
+    let axis := pN op 0 0
+    let num := pN op 0 1
+    if axis ≥ a.shape.length ∨ a.shape.getD axis 0 ≠ num then throw "unpack: axis / count"
+    (List.range num).mapM fun k => do
+      let t ← slice a ((List.replicate a.shape.length 0).set axis k) (a.shape.set axis 1)
+      pure { t with shape := a.shape.eraseIdx axis }
+  | "ABS" =>
+    -- params: needs_rescale, multiplier, shift (input_scale / output_scale as float)
+    let a ← getIn env op 0
+    let o := outId op 0
+    let dt := g.dtype o
+    let zi := g.zp (inId op 0)
+    return [unary a fun v =>
+      let x := if v - zi ≥ 0 then v - zi else zi - v
+      clamp ((if pI op 0 0 = 1 then mbqm x (pI op 0 1) (pI op 0 2) else x) + g.zp o) dt.lo dt.hi]
   | "ARG_MAX" =>
     -- params: axis (resolved). Index of the first largest element along the axis (reference_ops::ArgMinMax with std::greater)
     let a ← getIn env op 0
@@ -838,6 +877,11 @@ def verifyParams (g : Graph) (op : OpDef) : Except String Unit := do
     let bits16 := g.dtype o == .i16
     if pN op 0 2 ≠ (if bits16 then 15 else 20) then throw "reference parameter mismatch for ADD/SUB left shift"
     actCheck (pI op 0 0) (pI op 0 1) (pN op 0 9)
+  | "ABS" =>
+    let si ← g.scale1 (inId op 0)
+    let so ← g.scale1 o
+    if (pI op 0 0 = 1) ≠ (si ≠ so) then throw "reference parameter mismatch for ABS needs_rescale"
+    if si ≠ so then expectEq "ABS multiplier" (some (pI op 0 1, pI op 0 2)) (qmRatioFloat si so)
   | "SQUARED_DIFFERENCE" =>
     let dt := g.dtype o
     if pN op 0 2 ≠ (if dt == .i16 then 0 else 7) ∨ pI op 0 0 ≠ dt.lo ∨ pI op 0 1 ≠ dt.hi then
